@@ -18,6 +18,8 @@ request: cer2 K m sort given coin cpath wallets addrs chains spends opts seeds
             rows = one digit per input (which address row it spends); sel = e (explicit input_arr) | a<min_confirms>
    opts     k=v pairs (';'): nw network, afs one bit per wallet (anti_fee_sniping), dst external destinations ('+'),
             uv / vstep=R:O amount of the unspent outputs: uv + R*row + O*ordinal (0:0 = ask the offline provider);
+            on=i+i+.. output indices of the funded outputs (position 2*row+ordinal, cyclic), txm = shape of the funding txids
+            (h one per output | s<tag> one for all | r<tag> one per row; suffix z / t / b: leading / trailing zero bytes);
             bc, dust, uv, conf are facts about the provider / network that only the model reads
 answer : W:.. A:.. as above (one A cell per row)  U:<txid:n:value+..>,<row>,..;<wallet 1 or "=">;...
          X: per chain the observations; a state observation is <sigs>=<verified>~<raw hex>~<value:redeemscript|...>,
@@ -193,11 +195,29 @@ def supplied_key(hd, form, wt):
     return prv if form == 'R' else prv.wif_private()
 
 
-def fake_utxos(address, row=0, uv=100000000, vstep=(0, 0)):
+def fake_utxos(address, row=0, uv=100000000, vstep=(0, 0), on=None, txm='h'):
     """two unspent outputs per address, handed to utxos_update(utxos=...) (same shape as the test provider's); the
-    amount depends on the address row and the ordinal so that no two inputs of a spend carry the same amount"""
-    return [{'address': address, 'txid': hashlib.sha256(b'%d' % n + address.encode()).hexdigest(), 'confirmations': 10,
-             'output_n': 0, 'index': 0, 'value': uv + vstep[0] * row + vstep[1] * n, 'script': ''} for n in range(2)]
+    amount depends on the address row and the ordinal so that no two inputs of a spend carry the same amount.
+    on: output indices of the funding outputs, taken cyclically at position 2 * row + ordinal (default: all 0);
+    txm: shape of the funding txid: h = one funding transaction per output, s<tag> = ALL outputs belong to one funding
+    transaction (the indices in `on` are then distinct), r<tag> = one funding transaction per address row, and a suffix
+    z / t / b = the txid starts / ends / starts and ends with zero bytes"""
+    out = []
+    for n in range(2):
+        if txm[0] == 's':
+            h = hashlib.sha256(b'fund' + txm.encode()).hexdigest()
+        elif txm[0] == 'r':
+            h = hashlib.sha256(b'fund%d' % row + txm.encode()).hexdigest()
+        else:
+            h = hashlib.sha256(b'%d' % n + address.encode()).hexdigest()
+        if txm[-1] in 'zb':
+            h = '0000' + h[4:]
+        if txm[-1] in 'tb':
+            h = h[:-6] + '000000'
+        o_n = on[(2 * row + n) % len(on)] if on else 0
+        out.append({'address': address, 'txid': h, 'confirmations': 10, 'output_n': o_n, 'index': o_n,
+                    'value': uv + vstep[0] * row + vstep[1] * n, 'script': ''})
+    return out
 
 
 def fields_of(t):
@@ -219,6 +239,8 @@ def ceremony2(t, tagname):
     dst = split('+', opt.get('dst', OUT))
     uv = int(opt.get('uv', '100000000'))
     vstep = tuple(int(x) for x in opt.get('vstep', '0:0').split(':'))
+    on = [int(x) for x in split('+', opt.get('on', '-'))]
+    txm = opt.get('txm', 'h')
     if given == '-':
         givens = [None] * len(wl_txt)
     elif ',' in given:
@@ -272,7 +294,7 @@ def ceremony2(t, tagname):
         if testnw and vstep == (0, 0):
             w.utxos_update()
         else:
-            w.utxos_update(utxos=[u for j, wk in enumerate(wk_row) for u in fake_utxos(wk.address, j, uv, vstep)])
+            w.utxos_update(utxos=[u for j, wk in enumerate(wk_row) for u in fake_utxos(wk.address, j, uv, vstep, on, txm)])
         all_utxos = w.utxos()
         mine = [sorted([x for x in all_utxos if x['address'] == wk.address], key=lambda x: x['value']) for wk in wk_row]
         wutxos.append(mine)
